@@ -223,6 +223,13 @@ Qed.
 
 (* ---------- B5: one-shot rules (Plurality/SNTV, Borda, the rating family) ---------- *)
 
+(* DESIGN.md asks for c09_profile_cands / c09_rescoring for every rule (STV, Alaska, TopTwo,
+   CondoBorda, DominatingSets, the dictators):
+     cands (get_profile r) ~ flat (remaining states[r])  and  score (get_profile r) = scores states[r]
+   for every round r of a finished election whose rounds drew nothing.  Only the one-shot rules
+   are covered here; the multi-round rules (induction over stv_replay / replay_steps against the
+   run) are not proved in this file. *)
+
 (* if the run recorded no tiebreak then it consumed no draw, get_profile(0) is the input profile,
    get_profile(1) = get_profile(-1) is — from every state — a profile np whose re-scoring with the
    rule's score function is the tally recorded for round 1, and whose candidates are exactly the
@@ -301,12 +308,11 @@ Proof.
       cbn in H. unfold xA, xB, xC in H. intuition discriminate.
   - exfalso. unfold touched, in_elected, in_eliminated in Ht. cbn in Ht. unfold xA, xC in Ht.
     intuition discriminate.
-  - destruct l1; discriminate.
 Qed.
 
 (* a one-shot election without tiebreak: the hypotheses of c09_profile_cands_oneshot hold *)
 Definition tprof : profile positive :=
-  mkProfile [plain_ballot positive [[xA]; [xB]] 2; plain_ballot positive [[xB]; [xA]] 1;
+  mkProfile [plain_ballot positive [[xA]; [xB]] 3; plain_ballot positive [[xB]; [xA]] 2;
              plain_ballot positive [[xC]] 1] [xA; xB; xC].
 
 Example ex_oneshot :
